@@ -12,7 +12,7 @@ CFG = {'streams': [{'name': 'C15',
                 'run gives exactly the plain run (graph, error with contexts, panic, polls), for any subset of the three names (hypotheses: pairwise different names that no attribute statement or shorthand of the file uses); the lazy proof '
                 '(Proofs/DebugSimLazy.v) is a two-run simulation through the execution phase and the evaluation phase (pending edge statements '
                 'related by erasure, thunk store / scoped cells / prev_element_debug_info equal); stdlib_ignores_attributes discharges the '
-                'hypothesis on the function library; a `node` statement records exactly variable text, 1-based line/column and the matched '
+                'hypothesis on the function library; the helper sequence a `node` statement runs on the fresh node (debug_node_attrs is about that composite, not about exec_stmt (SNode ..) itself) records exactly variable text, 1-based line/column and the matched '
                 "node; location text format; lazy edge creation gives a NEW edge the statement's location and leaves an existing edge alone. "
                 'Direct stream: erase-and-compare on the implementation in both modes. Correspondence: model with the debug configuration vs '
                 'implementation (exact attribute values).',
